@@ -339,15 +339,38 @@ def _r4(repo, L, ovr, direct):
                     raise AnalysisError(f"{m.short}: rows are removed inside a for-loop (e.g. over takewhile(...)): the gap-stripping discipline is written in a form the pairing rule does not understand")
                 ok, why = False, "a path ends right after removing a row, without testing the new terminal row for Gap"
                 break
-            t = tail[-1]
-            txt = norm(t.node).replace(" ", "")
-            isgap = f"isinstance(self.rows[{idx}],Gap)" in txt
-            guard = txt.startswith("self.rowsand") or "len(self.rows)" in txt
-            if not (t.val is False and isgap):
-                ok, why = False, f"after the last removal the path does not leave through a failed 'terminal row is a Gap' test (last test: {norm(t.node)} = {t.val})"
+            # facts established after the last removal, in order: the path must end knowing "no rows left" or
+            # "rows left and the terminal row is not a Gap" (the Gap test itself protected by an emptiness test)
+            from ..flow import cond_facts as _cf
+
+            gap_txt = f"isinstance(self.rows[{idx}],Gap)"
+            def is_nonempty_test(x):
+                tx = norm(x).replace(" ", "")
+                return tx == "self.rows" or "len(self.rows)" in tx
+            verdict = None  # "empty" | "not-gap" | "unguarded"
+            nonempty_known = False
+            for t in tail:
+                node, val = t.node, t.val
+                if isinstance(node, ast.BoolOp) and isinstance(node.op, ast.And) and val is False and len(node.values) == 2 and is_nonempty_test(node.values[0]) and norm(node.values[1]).replace(" ", "") == gap_txt:
+                    verdict = "not-gap"  # empty, or non-empty and not a gap: both fine, the guard is in the same test
+                    continue
+                for tt, vv in _cf(node, val):
+                    txt = norm(tt).replace(" ", "")
+                    if is_nonempty_test(tt):
+                        nonempty_known = bool(vv) if txt == "self.rows" else nonempty_known or bool(vv)
+                        if txt == "self.rows" and not vv:
+                            verdict = "empty"
+                    elif txt == gap_txt:
+                        if not vv:
+                            verdict = "not-gap" if nonempty_known else "unguarded"
+                        else:
+                            verdict = None  # a gap was seen: it has to be removed (another pop) -> this is not the tail
+            if verdict == "unguarded":
+                ok, why = False, f"the 'terminal row is a Gap' test after the last removal has no emptiness guard"
                 break
-            if not guard:
-                ok, why = False, f"gap-stripping test '{norm(t.node)}' has no emptiness guard"
+            if verdict is None:
+                t = tail[-1]
+                ok, why = False, f"after the last removal the path does not leave through a failed 'terminal row is a Gap' test (last test: {norm(t.node)} = {t.val})"
                 break
         L.check(ok, "R4", m.short, f"terminal gaps stripped at index {idx} with emptiness guard on every path", why, m.loc())
     L.floor("R4", "end-removal methods", n, 1)
